@@ -418,7 +418,7 @@ def _full(interp, shape, val, kind):
     return arr_new(interp, to_z3(shape), lambda k: val, kind)
 
 
-def _kind_val(dtype, one):
+def _kind_val(dtype, one, like=None):
     if dtype is bool or dtype is np.bool_:
         return "bool", z3.BoolVal(bool(one))
     dt = np.dtype(dtype if dtype is not None else float)
@@ -426,6 +426,8 @@ def _kind_val(dtype, one):
         return "bool", z3.BoolVal(bool(one))
     if dt.kind in "iu":
         return "int", Z(one)
+    if like is not None and like.kind == "F":
+        return "F", F.fin(z3.RealVal(one))     # float array that may later hold NaN
     return "real", z3.RealVal(one)
 
 
@@ -451,7 +453,7 @@ def _zeros_like(interp, a, dtype=None, **kw):
     if _all_concrete(a):
         return np.zeros_like(a, dtype=dtype, **kw)
     arr = as_arr(interp, a)
-    k, v = _kind_val(dtype, 0) if dtype is not None else (arr.kind, to_z3(0, arr.kind))
+    k, v = _kind_val(dtype, 0, arr) if dtype is not None else (arr.kind, to_z3(0, arr.kind) if arr.kind != "F" else F.fin(z3.RealVal(0)))
     return _full(interp, arr.n, v, k)
 
 
@@ -460,7 +462,7 @@ def _ones_like(interp, a, dtype=None, **kw):
     if _all_concrete(a):
         return np.ones_like(a, dtype=dtype, **kw)
     arr = as_arr(interp, a)
-    k, v = _kind_val(dtype, 1) if dtype is not None else (arr.kind, to_z3(1, arr.kind))
+    k, v = _kind_val(dtype, 1, arr) if dtype is not None else (arr.kind, to_z3(1, arr.kind) if arr.kind != "F" else F.fin(z3.RealVal(1)))
     return _full(interp, arr.n, v, k)
 
 
@@ -575,8 +577,19 @@ def _m_astype(interp, a, dtype, **kw):
     return cast_arr(interp, a, _cast_kind(a, dtype), dtype)
 
 
+@models.arr_method("reshape")
+def _m_reshape(interp, a, *shape):
+    if shape in ((-1,), ((-1,),)) and not getattr(a, "item_shape", ()):
+        return a
+    raise _eng().Unsupported("reshape of a symbolic array")
+
+
 @models.arr_method("view")
 def _m_view(interp, a, *args):
+    if args and args[0] in (np.uint8, "uint8") and not getattr(a, "item_shape", ()):
+        b = models.BytesOf(SArr(a.n, a.a, a.kind, dtype=a.dtype))
+        b.arr.uid_src = getattr(a, "uid_src", a.uid)
+        return b
     if not args:
         v = SArr(a.n, None, a.kind, dtype=a.dtype, base=a, off=Z(0), writeable=a.writeable)
         v.birth = a.birth
